@@ -349,39 +349,10 @@ def rule_longest_prefix_walk(ctx, p, cfg, rid="R5"):
             r.require(not bad, "components-left-to-right", fn=f, detail="iterator adaptors: %s" % bad)
 
 
-def run_cfg_after_r5(ctx, p, cfg):
-    with ctx.rule("R6", "threshold comparator", cfg) as r:
-        ro = anchors.routing(p)
-        pred = ro["enabled_pred"]
-        nf = cmp_nf(pred.local_expr(0))
-        ok = nf is not None and nf[0] == "Le" and deep_strip(nf[1]) == ("param", 2) and deep_strip(nf[2])[0] == "field" and deep_strip(nf[2])[1] == ("param", 1)
-        r.require(ok, "threshold-ge-level", fn=pred, detail="normal form %s" % (show(("cmp",) + nf, 4) if nf else show(pred.local_expr(0))))
 
-    with ctx.rule("R7", "fan-out", cfg) as r:
-        ro = anchors.routing(p)
-        nl, ds, pred = ro["node_log"], ro["deliver_site"], ro["enabled_pred"]
-        lvl, apps, kids = node_fields(p, ro)
-        sites = [c for c in nl.calls(ds.callee)]
-        r.require(len(sites) == 1 and nl.in_loop(ds.block), "one-delivery-site-in-loop", fn=nl, detail="delivery sites: %d" % len(sites))
-        nx = [c for c in nl.calls(NEXT) if nl.dominates(c.block, ds.block)]
-        r.require(len(nx) == 1 and any(deep_strip(x) == ("field", ("param", 1), apps) for x in walk(nx[0].arg(0))), "loops-over-own-appender-list", fn=nl, detail="iterator %s" % (show(nx[0].arg(0), 5) if nx else None))
-        if nx:
-            bad = [x[1].rsplit("::", 1)[-1] for x in walk(nx[0].arg(0)) if x[0] == "call" and x[1].rsplit("::", 1)[-1] in ("rev", "skip", "take", "filter", "step_by", "skip_while", "take_while", "filter_map", "dedup", "nth", "peekable", "chain")]
-            r.require(not bad, "whole-list-each-once", fn=nl, detail="iterator adaptors on the node's appender list: %s" % bad)
-        a0 = ds.arg(0)
-        idx = [x for x in walk(a0) if x[0] == "index"]
-        r.require(bool(idx) and deep_strip(idx[0][1]) == ("param", 3) and any(x[0] == "as" and x[2] == "Some" for x in walk(idx[0][2])), "indexes-table-with-loop-item", fn=nl, site=ds.at, detail="receiver %s" % show(a0, 6))
-        r.require(deep_strip(ds.arg(1)) == ("param", 2), "delivers-the-record", fn=nl, detail="record passed through")
-        gate = [(si, al) for sb, si, al in nl.conditions(ds.block) if strip(si.discr)[0] == "call" and strip(si.discr)[1] == pred.path]
-        r.require(len(gate) == 1 and {gate[0][0].label(v) for v, _ in gate[0][1]} == {True}, "gated-by-threshold", fn=nl, detail="loop is control-dependent on enabled(record.level())")
-        # nothing else delivers: no other call reaching dyn Append in the function
-        oth = [c.callee for c in nl.calls() if c.callee == "append::Append::append"]
-        r.require(not oth, "no-direct-delivery", fn=nl, detail="direct Append::append calls in the node's log(): %s" % oth)
-        # the table passed by Log::log is the snapshot's
-        site = ro["node_log_site"]
-        r.require(any(x[0] == "field" for x in walk(site.arg(2))) and any(x[0] == "call" and x[1] == anchors.LOAD for x in walk(site.arg(2))), "table-from-snapshot", fn=site.fn, detail="appender table argument %s" % show(site.arg(2), 6))
-
-    with ctx.rule("R8", "index table agreement", cfg) as r:
+def rule_index_table(ctx, p, cfg, rid="R8"):
+    """the positions stored in the nodes and the appender table of the snapshot come from one vector, in one order"""
+    with ctx.rule(rid, "index table agreement", cfg) as r:
         # The nodes store positions; the snapshot stores the appenders.  Both come from one vector V: the name -> position map
         # enumerates V front to back, the table is V's elements in V's order, and V is not touched in between.  Everything is
         # read on the loop view, where `.enumerate().map(..).collect::<HashMap>()` and `for (i, a) in V.iter().enumerate() {
@@ -467,6 +438,40 @@ def run_cfg_after_r5(ctx, p, cfg):
         # indices stored in nodes come from that map: the root's and every logger's list are looked up in it
         look = [c for c in sn.calls("core::ops::index::Index::index") if any("HashMap" in t_ for t_ in (c.t.get("arg_tys") or [])[:1])]
         r.require(len(look) >= 2, "indices-come-from-the-map", fn=sn, detail="lookups in the map: %d (root, loggers)" % len(look))
+
+def run_cfg_after_r5(ctx, p, cfg):
+    with ctx.rule("R6", "threshold comparator", cfg) as r:
+        ro = anchors.routing(p)
+        pred = ro["enabled_pred"]
+        nf = cmp_nf(pred.local_expr(0))
+        ok = nf is not None and nf[0] == "Le" and deep_strip(nf[1]) == ("param", 2) and deep_strip(nf[2])[0] == "field" and deep_strip(nf[2])[1] == ("param", 1)
+        r.require(ok, "threshold-ge-level", fn=pred, detail="normal form %s" % (show(("cmp",) + nf, 4) if nf else show(pred.local_expr(0))))
+
+    with ctx.rule("R7", "fan-out", cfg) as r:
+        ro = anchors.routing(p)
+        nl, ds, pred = ro["node_log"], ro["deliver_site"], ro["enabled_pred"]
+        lvl, apps, kids = node_fields(p, ro)
+        sites = [c for c in nl.calls(ds.callee)]
+        r.require(len(sites) == 1 and nl.in_loop(ds.block), "one-delivery-site-in-loop", fn=nl, detail="delivery sites: %d" % len(sites))
+        nx = [c for c in nl.calls(NEXT) if nl.dominates(c.block, ds.block)]
+        r.require(len(nx) == 1 and any(deep_strip(x) == ("field", ("param", 1), apps) for x in walk(nx[0].arg(0))), "loops-over-own-appender-list", fn=nl, detail="iterator %s" % (show(nx[0].arg(0), 5) if nx else None))
+        if nx:
+            bad = [x[1].rsplit("::", 1)[-1] for x in walk(nx[0].arg(0)) if x[0] == "call" and x[1].rsplit("::", 1)[-1] in ("rev", "skip", "take", "filter", "step_by", "skip_while", "take_while", "filter_map", "dedup", "nth", "peekable", "chain")]
+            r.require(not bad, "whole-list-each-once", fn=nl, detail="iterator adaptors on the node's appender list: %s" % bad)
+        a0 = ds.arg(0)
+        idx = [x for x in walk(a0) if x[0] == "index"]
+        r.require(bool(idx) and deep_strip(idx[0][1]) == ("param", 3) and any(x[0] == "as" and x[2] == "Some" for x in walk(idx[0][2])), "indexes-table-with-loop-item", fn=nl, site=ds.at, detail="receiver %s" % show(a0, 6))
+        r.require(deep_strip(ds.arg(1)) == ("param", 2), "delivers-the-record", fn=nl, detail="record passed through")
+        gate = [(si, al) for sb, si, al in nl.conditions(ds.block) if strip(si.discr)[0] == "call" and strip(si.discr)[1] == pred.path]
+        r.require(len(gate) == 1 and {gate[0][0].label(v) for v, _ in gate[0][1]} == {True}, "gated-by-threshold", fn=nl, detail="loop is control-dependent on enabled(record.level())")
+        # nothing else delivers: no other call reaching dyn Append in the function
+        oth = [c.callee for c in nl.calls() if c.callee == "append::Append::append"]
+        r.require(not oth, "no-direct-delivery", fn=nl, detail="direct Append::append calls in the node's log(): %s" % oth)
+        # the table passed by Log::log is the snapshot's
+        site = ro["node_log_site"]
+        r.require(any(x[0] == "field" for x in walk(site.arg(2))) and any(x[0] == "call" and x[1] == anchors.LOAD for x in walk(site.arg(2))), "table-from-snapshot", fn=site.fn, detail="appender table argument %s" % show(site.arg(2), 6))
+
+    rule_index_table(ctx, p, cfg, "R8")
 
     with ctx.rule("R9", "existing nodes are never replaced", cfg) as r:
         ro = anchors.routing(p)
